@@ -188,6 +188,37 @@ fn c06_lit_f64_fills_register() {
     assert!(fr[0][0] == 1.0 && fr[0][1] == 2.0);
 }
 
+// ---------------------------------------------------------------- C06 bit packing (region of evaluate)
+include!("/verif/kani/gen/kx_c06_pack_bits.rs");
+/// the 0/1 chunk is packed LSB-first into bytes: bit i of the packed buffer == (out[i] != 0)
+/// for every i < len, and nothing beyond len is set. B(len <= 19: two full bytes + a ragged tail).
+#[kani::proof]
+#[kani::unwind(21)]
+fn c06_pack_bits_region() {
+    let len: usize = kani::any();
+    kani::assume(len <= 19);
+    let mut out = [0u8; CHUNK];
+    let mut i = 0;
+    while i < 19 {
+        let b: bool = kani::any();
+        out[i] = b as u8; // masks are 0/1 (c06_cmp_* obligations)
+        i += 1;
+    }
+    let packed = kx_c06_pack_bits(&out, len);
+    let mut k = 0;
+    while k < 19 {
+        let bit = (packed[k / 8] >> (k % 8)) & 1;
+        if k < len {
+            assert!(bit == out[k]);
+        } else if k / 8 >= (len + 7) / 8 {
+            assert!(bit == 0);
+        }
+        k += 1;
+    }
+    kani::cover!(len == 19);
+    kani::cover!(len % 8 == 0 && len > 0);
+}
+
 // ---------------------------------------------------------------- C02 / O1 mask algebra
 /// And / Or / Not over 0/1 masks: d == x&y / x|y / 1-x, operands untouched, for all
 /// combinations (masks produced by integer comparisons of literals). One harness per
